@@ -268,6 +268,7 @@ def run_check(pid, tier, seed=0, workers=None, only_job=None):
     with ctx.Pool(workers, maxtasksperchild=50) as pool:
         def submit(job_idx, prefixes, budget, profile=False):
             pending[0] += 1
+            per_job[job_idx]["outstanding"] = per_job[job_idx].get("outstanding", 0) + 1
             task = (pid, job_idx, jobs[job_idx], prefixes, budget, known_ids, profile)
             results.append(pool.apply_async(worker_task, (task,)))
         for j in order:
@@ -286,6 +287,7 @@ def run_check(pid, tier, seed=0, workers=None, only_job=None):
                 results.remove(r)
                 res = r.get()
                 j = res["job"]
+                per_job[j]["outstanding"] -= 1
                 if res.get("error"):
                     errors.append((jobs[j].get("name"), res["error"]))
                     continue
@@ -411,7 +413,7 @@ def run_check(pid, tier, seed=0, workers=None, only_job=None):
             st = pj["stats"]
             print("  job %-40s paths=%-8d cut=%-8d refuted=%-4d exc=%-3d cpu=%.0fs %s"
                   % (jobs[j].get("name"), st.paths, st.cut_paths, st.refuted, st.exceptions, pj["wall"],
-                     "" if not capped else "(run capped)"))
+                     "" if not capped else "(frontier not emptied)" if pj.get("outstanding") else "(exhausted)"))
     for line in known_lines:
         print(line)
     for m in msgs:
